@@ -99,6 +99,10 @@ theorem F3_buffer_bounded (method : Bytes) (cap : Nat) (st st' : St) (r : Recv) 
   | peerClosed =>
     simp only [recvStep] at h
     split at h <;> (cases h; simp [h0])
+  | timeout => simp only [recvStep] at h; cases h; simp [h0]
+  | overflow => simp only [recvStep] at h; cases h; simp [h0]
+  | shuttingDown => simp only [recvStep] at h; cases h; simp [h0]
+  | otherError => simp only [recvStep] at h; cases h; simp [h0]
   | data seg =>
     simp only [recvStep] at h
     split at h
@@ -113,6 +117,90 @@ theorem F3_buffer_bounded (method : Bytes) (cap : Nat) (st st' : St) (r : Recv) 
           simp only [List.length_append] at hle hcap
           rw [hfr] at h
           cases o2 <;> (simp only at h; cases h; constructor <;> (intros; omega))
+
+/-- **F1+F2 (exactness under ANY segmentation).** However the stream `interims ++ render m ++ x` is cut into network reads,
+the receive loop (followed by the peer's close) returns exactly the response encoded in `m` (up to the surplus flag, which
+depends on whether `x` had arrived when the message completed). -/
+theorem F1_exact_any_segmentation (method : Bytes) (cap : Nat) (is : List Spec.Interim) (m : Spec.Response) (x : Bytes)
+    (his : ∀ i ∈ is, InterimWF i) (hm : RespWF method cap m) (hnc : ∀ b, m.body ≠ .untilClose b)
+    (hcap : (Spec.renderInterims is ++ m.render ++ x).length ≤ cap) (ss : List Bytes)
+    (hss : ss.flatten = Spec.renderInterims is ++ m.render ++ x) :
+    SameOutcome (runLoop method cap {} (dataReads ss ++ [.peerClosed])).2
+      (.response { status := m.sl.status, text := m.sl.reason.getD [], version := m.sl.version,
+                   headers := Spec.headerMap m.fields, body := m.body.content } false) := by
+  have h2 := F2_segmentation_independent method cap ss [Spec.renderInterims is ++ m.render ++ x] (by simpa using hss)
+    (by rw [hss]; exact hcap)
+  have h1 := recv_exact method cap is m x his hm hnc hcap
+  have hw : (runLoop method cap {} (dataReads [Spec.renderInterims is ++ m.render ++ x] ++ [.peerClosed])).2 =
+      .response { status := m.sl.status, text := m.sl.reason.getD [], version := m.sl.version,
+                  headers := Spec.headerMap m.fields, body := m.body.content } (decide (x ≠ [])) := by
+    simp only [dataReads, List.map_cons, List.map_nil, List.cons_append, List.nil_append, runLoop]
+    cases hp : recvStep method cap {} (.data (Spec.renderInterims is ++ m.render ++ x)) with
+    | mk st o =>
+      rw [hp] at h1
+      simp only at h1
+      subst h1
+      rfl
+  rw [hw] at h2
+  cases ha : (runLoop method cap {} (dataReads ss ++ [.peerClosed])).2 <;> rw [ha] at h2 <;> simp_all [SameOutcome]
+
+open Iora.Http.Spec in
+/-- **F1″ (responses that never have a body).** For `HEAD` requests and 204/304 statuses ANY well-formed field list -
+including `Content-Length` (all equal) and `Transfer-Encoding` lines - is accepted, the message ends with the header section
+and no body is read (RFC 9112 §6.3 rule 1). -/
+theorem F1_exact_nobody (method : Bytes) (cap : Nat) (is : List Interim) (sl : StatusLine) (fs : List Field) (x : Bytes)
+    (his : ∀ i ∈ is, InterimWF i) (hsl : sl.WF) (hfin : isInterim sl.status = false) (hfs : ∀ f ∈ fs, f.WF)
+    (hcl : CLcons none fs) (hm : method ≠ ascii "CONNECT")
+    (hnb : method = ascii "HEAD" ∨ sl.status = 204 ∨ sl.status = 304)
+    (hcap : (renderInterims is ++ (joinCRLF (sl.render :: fs.map Field.line) ++ crlf2) ++ x).length ≤ cap) :
+    (recvStep method cap {} (.data (renderInterims is ++ (joinCRLF (sl.render :: fs.map Field.line) ++ crlf2) ++ x))).2 =
+      .response { status := sl.status, text := sl.reason.getD [], version := sl.version, headers := headerMap fs, body := [] }
+        (decide (x ≠ [])) :=
+  recv_exact_nobody method cap is sl fs x his hsl hfin hfs hcl hm hnb hcap
+
+/-- **F3d (every receive error ends the loop).** A read that is not data never continues the loop: Timeout, ShuttingDown and
+any other error end it with the corresponding non-framing failure, BufferOverflow with the non-retryable framing error, and
+PeerClosed with the response exactly when the headers are done and the body is close-delimited (else "closed early"); the
+state is untouched. -/
+theorem F3_loop_ends_on_error (method : Bytes) (cap : Nat) (st : St) :
+    recvStep method cap st .timeout = (st, .failed .timeout) ∧
+    recvStep method cap st .overflow = (st, .framingError .overflow) ∧
+    recvStep method cap st .shuttingDown = (st, .failed .shuttingDown) ∧
+    recvStep method cap st .otherError = (st, .failed .closedEarly) ∧
+    (recvStep method cap st .peerClosed).2 ≠ .more ∧
+    ((recvStep method cap st .peerClosed).2 ≠ .failed .closedEarly →
+      st.headersDone = true ∧ st.framing.mode = .closeDelimited) := by
+  refine ⟨rfl, rfl, rfl, rfl, ?_, ?_⟩
+  · simp only [recvStep]; split <;> simp
+  · simp only [recvStep]; split
+    · rename_i h; intro _; exact h
+    · intro h; exact absurd rfl h
+
+/-- **F3e (what follows the loop).** `executeRequest` keeps the connection only for a response without surplus, with a
+self-delimiting body and with nothing left unread in the transport (`residualDataPending`); every other outcome (framing
+error, timeout, shutting down, closed early) and every response with `forceEvict` drops it, as does a client configured not
+to reuse connections. -/
+theorem F3_connection_dropped (method : Bytes) (a b : Nat) (reuse : Bool) (script : List Recv) (o : LoopOut) (closed : Bool)
+    (h : executeReceive method a b reuse script = (o, closed)) :
+    (∀ r ev, o = .response r ev → ev = true → closed = true) ∧ ((∀ r ev, o ≠ .response r ev) → closed = true) ∧
+    (reuse = false → closed = true) := by
+  unfold executeReceive at h
+  simp only at h
+  cases hr : runScript method (effectiveCap a b) {} script with
+  | mk st rest =>
+    obtain ⟨lo, residual⟩ := rest
+    rw [hr] at h
+    cases lo with
+    | response r ev =>
+      simp only [Prod.mk.injEq] at h
+      obtain ⟨h1, h2⟩ := h
+      subst h1
+      refine ⟨?_, fun hn => absurd rfl (hn r ev), ?_⟩
+      · intro r' ev' he hev; cases he; subst hev; rw [← h2]; simp
+      · intro hru; subst hru; rw [← h2]; simp
+    | more => simp only [Prod.mk.injEq] at h; obtain ⟨h1, h2⟩ := h; subst h1; subst h2; simp
+    | framingError k => simp only [Prod.mk.injEq] at h; obtain ⟨h1, h2⟩ := h; subst h1; subst h2; simp
+    | failed f => simp only [Prod.mk.injEq] at h; obtain ⟨h1, h2⟩ := h; subst h1; subst h2; simp
 
 /-- **F3b (progress).** Every iteration of the chunk loop that continues moves the parse position strictly forward (it is
 bounded by the buffer length: the measure `buf.length - pos` of `advanceChunked` strictly decreases). -/
@@ -188,7 +276,8 @@ example : sizeLine (ascii "10000000000000000\r\nzz") 1048576 0 = .bad ∧ sizeLi
 /-! ## Server (`handleIncomingData` as repaired by F25/F26/F27) -/
 
 open Iora.Http.Srv in
-/-- **S1/S4/S5 (exact extraction).** For every well-formed request of the reference syntax - any colon-free request line,
+/-- **S1/S4/S5 (exact extraction).** For every well-formed request of the reference syntax - any request line without CR/LF whose text before its first `:`
+(if any) is not a framing field name,
 arbitrary field lines around the framing field, body absent, framed by `Content-Length`, or CHUNKED with chunk extensions
 and a trailer section - followed by arbitrary bytes, the extractor cuts exactly at the end of the message and hands the
 request parser the header section followed by the DECODED body (chunk framing, extensions and trailers removed). -/
@@ -205,30 +294,44 @@ theorem S1_pipeline_exact (rs : List ReqSpec) (hall : ∀ r ∈ rs, r.OK) (ss : 
     (srvFeed {} ss).1 = rs.map (fun r => dispatch r.raw) ∧ (srvFeed {} ss).2 = { buffer := [], alive := true } :=
   pipeline_any_segmentation rs hall ss hss hb
 
-open Iora.Http.Srv in
-/-- **S1 (what the handler sees).** For a complete request of the reference syntax - method from the method table, request
-target without SP/CTL/DEL (and, for this theorem, without `:`), `HTTP/1.<minor>`, field lines incl. exactly one non-empty
-`Host` - the bytes handed over by the extractor parse to exactly: the method, the target, the header map built by
-`addOrCombineHeader` over the field lines in order (last value wins, list-valued fields combine), and the decoded body. -/
-theorem S1_request_exact (r : FullReq) (hrl : r.rl.WF) (hok : r.spec.OK) (hhost : hostCount r.fields = 1)
-    (hhv : hdrFind (reqHeaders r.fields []) (ascii "Host") ≠ some []) (rest : Bytes) :
+open Iora.Http.Srv Iora.Http.Spec in
+/-- **S1 (what the handler sees).** For a complete request of the reference syntax - method from the method table, ANY request
+target without SP/CTL/DEL (origin-form, absolute-form `http://h:80/…`, authority-form `h:443`, queries with `:` - that the
+header scan never takes the request line for a framing field is `reqLine_facts`), `HTTP/1.<minor>`, field lines incl.
+exactly one non-empty `Host`, body absent / Content-Length / chunked with extensions and trailers - the extractor cuts
+exactly at the end of the message, and the bytes it hands over parse to exactly: the method, the target, the header map built
+by `addOrCombineHeader` over the field lines in order (last value wins, list-valued fields combine), and the decoded body. -/
+theorem S1_request_exact (r : FullReq) (hrl : r.rl.WF)
+    (hb : ∀ f ∈ r.before, PlainField f) (ha : ∀ f ∈ r.after, PlainField f)
+    (hbody : match r.body with
+      | .empty => True
+      | .sized tok b => tokValue 10 tok = some b.length ∧ b.length ≤ Gen.Http.serverMaxBodySize
+      | .chunked te cs l =>
+        lastToken (splitOn 44 (lower te)) [] = ascii "chunked" ∧ NoCRLF te ∧ Trimmed te ∧
+          (∀ c ∈ cs, c.WF Gen.Http.serverMaxBodySize) ∧ l.WF
+      | .untilClose _ => False)
+    (hhead : (reqHead r.rl.render r.before r.after r.body).length ≤ Gen.Http.serverMaxHeaderSize)
+    (hhost : hostCount r.fields = 1) (hhv : hdrFind (reqHeaders r.fields []) (ascii "Host") ≠ some []) (rest : Bytes) :
     extractOne (r.spec.render ++ rest) = .request r.spec.raw r.spec.render.length ∧
     fromWireFormat r.spec.raw =
       .ok { method := r.rl.method, uri := r.rl.target, minor := r.rl.minor, headers := reqHeaders r.fields [],
-            body := r.body.content } :=
-  ⟨extract_exact _ _ _ _ hok.1 hok.2 rest, fromWireFormat_exact r hrl hok hhost hhv⟩
+            body := r.body.content } := by
+  have hok : r.spec.OK := ⟨reqWF_of_line r.rl hrl r.before r.after r.body hb ha hbody, hhead⟩
+  exact ⟨extract_exact _ _ _ _ hok.1 hok.2 rest, fromWireFormat_exact r hrl hok hhost hhv⟩
 
-open Iora.Http.Srv Iora.Http.Spec in
-/-- non-vacuity of the hypotheses of `S1_request_exact`: `POST /a?b=1 HTTP/1.1`, `Host: h`, `Via: x`, `Content-Length: 2`, body `hi` -/
+open Iora.Http.Srv in
+/-- non-vacuity of the hypotheses of `S1_request_exact`: absolute-form `POST http://h:80/a?t=1:2 HTTP/1.1`, `Host: h`, `Via: x`,
+`Content-Length: 2`, body `hi` -/
 def exampleReq : FullReq :=
-  { rl := { method := 1, target := ascii "/a?b=1", minor := 1 },
+  { rl := { method := 1, target := ascii "http://h:80/a?t=1:2", minor := 1 },
     before := [{ name := ascii "Host", value := ascii "h" }, { name := ascii "Via", value := ascii "x" }],
     body := .sized (ascii "2") (ascii "hi") }
 
 open Iora.Http.Srv Iora.Http.Spec in
 example : exampleReq.rl.WF ∧ hostCount exampleReq.fields = 1 ∧
     hdrFind (reqHeaders exampleReq.fields []) (ascii "Host") ≠ some [] ∧
-    exampleReq.rl.render = ascii "POST /a?b=1 HTTP/1.1" ∧ (∀ c ∈ exampleReq.rl.render, c ≠ 13 ∧ c ≠ 10 ∧ c ≠ 58) := by
+    exampleReq.rl.render = ascii "POST http://h:80/a?t=1:2 HTTP/1.1" ∧
+    (tokValue 10 (ascii "2") = some (ascii "hi").length ∧ (ascii "hi").length ≤ Gen.Http.serverMaxBodySize) := by
   refine ⟨⟨by decide, by decide, by decide, by decide, by decide⟩, by decide, by decide, by decide, by decide⟩
 
 open Iora.Http.Srv Iora.Http.Spec in
@@ -237,6 +340,10 @@ example : ReqWF (ascii "POST /x HTTP/1.1") [{ name := ascii "Host", value := asc
     (.chunked (ascii "chunked") [{ tok := ascii "3", data := ascii "abc" }] { trailers := [ascii "X-T: 1"] }) where
   line_ne := by decide
   line_ok := by decide
+  line_key := by
+    intro colon hc
+    have : indexOf? (· == 58) (ascii "POST /x HTTP/1.1") = none := by decide
+    rw [this] at hc; cases hc
   before_ok := by
     intro f hf; simp only [List.mem_singleton] at hf; subst hf
     exact ⟨⟨by decide, by decide, by decide, by decide, by decide, by decide⟩, by decide, by decide⟩
@@ -246,6 +353,15 @@ example : ReqWF (ascii "POST /x HTTP/1.1") [{ name := ascii "Host", value := asc
     · intro c hc; simp only [List.mem_singleton] at hc; subst hc
       exact ⟨by decide, by decide, by decide, by decide, Or.inl rfl⟩
     · intro t ht; simp only [List.mem_singleton] at ht; subst ht; exact ⟨by decide, by decide⟩
+
+open Iora.Http.Srv Iora.Http.Spec in
+/-- non-vacuity for request lines WITH colons: absolute-form `GET http://h:80/a?t=1:2 HTTP/1.1` and authority-form
+`CONNECT h:443 HTTP/1.1` satisfy `line_ok`/`line_key` (what precedes the first `:` is not a framing field name) -/
+example : (∀ c ∈ ascii "GET http://h:80/a?t=1:2 HTTP/1.1", c ≠ 13 ∧ c ≠ 10) ∧
+    indexOf? (· == 58) (ascii "GET http://h:80/a?t=1:2 HTTP/1.1") = some 8 ∧
+    lower (trim ((ascii "GET http://h:80/a?t=1:2 HTTP/1.1").take 8)) = ascii "get http" ∧
+    indexOf? (· == 58) (ascii "CONNECT h:443 HTTP/1.1") = some 9 ∧
+    lower (trim ((ascii "CONNECT h:443 HTTP/1.1").take 9)) = ascii "connect h" := by decide
 
 open Iora.Http.Srv in
 /-- **S2a (the extractor is a stable frame parser).** For ARBITRARY buffers: once `extractOne` has answered with a request
@@ -257,9 +373,15 @@ theorem S2_extractor_stable (buf x : Bytes) (r : Extract) (h : extractOne buf = 
   extractOne_spec buf x r h hr
 
 open Iora.Http.Srv in
-/-- **S2 (segmentation independence).** Any two segmentations of one byte stream of at most `MAX_BUFFER_SIZE` bytes make
-`handleIncomingData` dispatch exactly the same requests in the same order, leave the session equally open/closed and, if
-open, with the same buffered remainder.  (Instance of `Framing.segmentation_independent`.) -/
+/-- **S2 (segmentation independence of the I/O thread's extraction).** Any two segmentations of one byte stream of at most
+`MAX_BUFFER_SIZE` bytes make `handleIncomingData` dispatch exactly the same requests in the same order, and leave the session
+equally open/closed BY THE I/O THREAD (limit exceeded, invalid length information, malformed chunked body) and, if open, with
+the same buffered remainder.  (Instance of `Framing.segmentation_independent`.)
+Scope: `srvFeed` models the closes `handleIncomingData` itself performs.  The close a WORKER performs after it answered a
+request that failed to parse (`processHttpRequest`, 4xx + close - C16) is asynchronous to the extraction loop: requests
+pipelined behind a rejected one are dispatched or not depending on when that close lands, so for streams containing a
+parser-rejected request only the events up to that request are segmentation-independent.  (The driver erases the session
+after an op in which a worker closed it; `srvFeed {} [bad, good]` keeps `alive = true`.) -/
 theorem S2_segmentation_independent (ss ts : List Bytes) (h : ss.flatten = ts.flatten)
     (hb : ss.flatten.length ≤ Gen.Http.serverMaxBufferSize) :
     (srvFeed {} ss).1 = (srvFeed {} ts).1 ∧ (srvFeed {} ss).2.alive = (srvFeed {} ts).2.alive ∧
@@ -331,15 +453,19 @@ theorem S3_header_too_long (buf : Bytes) (he : Nat) (hf : find crlf2 buf 0 = som
   unfold extractOne; rw [hf]; simp [h]
 
 open Iora.Http.Srv in
-/-- **S6 (invalid length information is rejected, never framed by guesswork).** If a request is dispatched then EVERY
-`Content-Length` line of its header section carries a full decimal token (`1*DIGIT`, value `< 2^64`), all of them denote
-the same number - the one used for framing - and no `Transfer-Encoding: …chunked…` line accompanies a Content-Length.
-(Contrapositive: `12abc`, `+5`, `-1`, an overflowing value, two differing values, or CL together with chunked TE close the
-connection.) -/
+/-- **S6 (invalid length information is rejected, never framed by guesswork).** If a request is dispatched then
+(a) EVERY `Content-Length` line of its header section carries a full decimal token (`1*DIGIT`, value `< 2^64`) and all of
+them denote the same number - the one used for framing;
+(b) if the header section has any `Transfer-Encoding` line, the FINAL coding of the last one is exactly `chunked` (after
+FC15a: `notchunkedy`, `gzip`, `chunked, gzip` close the connection instead of being framed as chunked / as body-less) and
+(c) then there is no Content-Length at all.
+(Contrapositive: `12abc`, `+5`, `-1`, an overflowing value, two differing values, CL together with TE, or a transfer coding
+the server cannot decode close the connection.) -/
 theorem S6_lengths_valid (buf raw : Bytes) (n : Nat) (h : extractOne buf = .request raw n) :
     ∃ he hs, find crlf2 buf 0 = some he ∧ scanHeaderLines (getLines (buf.take he)) {} = some hs ∧
       (∀ l ∈ getLines (buf.take he), ∀ v, clValue? l = some v → parseFullUInt 10 v = some hs.contentLength) ∧
-      ¬ (hs.haveCL = true ∧ ∃ l ∈ getLines (buf.take he), teChunked l = true) := by
+      (∀ t, lastTE (getLines (buf.take he)) none = some t → t = ascii "chunked" ∧ hs.haveCL = false) ∧
+      (lastTE (getLines (buf.take he)) none = none → hs.isChunked = false) := by
   unfold extractOne at h
   cases hf : find crlf2 buf 0 with
   | none => rw [hf] at h; cases h
@@ -353,11 +479,41 @@ theorem S6_lengths_valid (buf raw : Bytes) (n : Nat) (h : extractOne buf = .requ
       | some hsr =>
         rw [hs] at h
         simp only at h
-        obtain ⟨_, _, _, d, e⟩ := scanHeaderLines_spec _ _ _ hs (by simp [Gen.Http.serverMaxBodySize])
-        refine ⟨he, hsr, rfl, hs, fun l hl v hv => (d l hl v hv).2, ?_⟩
-        rintro ⟨hcl, l, hl, ht⟩
-        have hch := e l hl ht
-        simp [hch, hcl] at h
+        obtain ⟨_, _, d⟩ := scanHeaderLines_spec _ _ _ hs (by simp [Gen.Http.serverMaxBodySize])
+        obtain ⟨t1, t2, t3⟩ := scanHeaderLines_te _ {} hsr none hs rfl (by intro t ht; cases ht)
+        refine ⟨he, hsr, rfl, hs, fun l hl v hv => (d l hl v hv).2, ?_, fun hn => t3 hn⟩
+        intro t ht
+        have hte : hsr.haveTE = true := by rw [t1, ht]; rfl
+        have hch := t2 t ht
+        by_cases hc : hsr.isChunked = true
+        · have htc : t = ascii "chunked" := by
+            rw [hc] at hch
+            simpa using hch.symm
+          refine ⟨htc, ?_⟩
+          cases hcl : hsr.haveCL with
+          | false => rfl
+          | true => simp [hte, hc, hcl] at h
+        · simp [hte, hc] at h
+
+open Iora.Http.Srv in
+/-- **S6b (chunk sizes, server).** A chunk-size line is accepted only with a size of at most `MAX_BODY_SIZE`: the digit loop
+compares every prefix value with the limit before shifting in the next digit, so a long digit run can neither wrap the
+accumulator (`10000000000000000`) nor come back as a small number; with S7 this is what replaced the `stoul` parse of F26. -/
+theorem S6b_chunk_size_sound (maxBody : Nat) (line : Bytes) (n : Nat) (h : sizeLine maxBody line = some n) : n ≤ maxBody :=
+  sizeLine_le maxBody line n h
+
+open Iora.Http.Srv in
+/-- witnesses (limit 10 MiB): 17 hex digits, `ffffffffffffffec`, a sign, `0x`, junk, BWS before CRLF are malformed -/
+example : sizeLine 10485760 (ascii "10000000000000000") = none ∧ sizeLine 10485760 (ascii "ffffffffffffffec") = none ∧
+    sizeLine 10485760 (ascii "-14") = none ∧ sizeLine 10485760 (ascii "0x3") = none ∧ sizeLine 10485760 (ascii "3x") = none ∧
+    sizeLine 10485760 (ascii "3 ") = none ∧ sizeLine 10485760 (ascii "a00001") = none ∧
+    sizeLine 10485760 (ascii "A00000 ;x") = some 10485760 := by decide
+
+open Iora.Http.Srv in
+/-- witnesses for the Transfer-Encoding rule: only a final coding that is exactly `chunked` is framed as chunked -/
+example : teFinal? (ascii "Transfer-Encoding: notchunkedy") = some (ascii "notchunkedy") ∧
+    teFinal? (ascii "transfer-encoding: gzip, Chunked ") = some (ascii "chunked") ∧
+    teFinal? (ascii "Transfer-Encoding: chunked, gzip") = some (ascii "gzip") := by decide
 
 /-- `parseFullUInt 10` accepts exactly non-empty all-digit tokens below 2^64: witnesses for the rejected shapes -/
 example : parseFullUInt 10 (ascii "12abc") = none ∧ parseFullUInt 10 (ascii "+5") = none ∧
